@@ -60,6 +60,8 @@ pub struct Block {
 pub struct AllocState {
     pub blocks: HashMap<usize, Block>,
     pub capture: Option<Vec<usize>>,
+    pub capture_seq: bool,
+    pub captured_seq: Vec<(usize, u64)>,
     pub quarantine: Vec<(usize, Layout)>,
     pub faults: Vec<AllocFault>,
     pub seq: u64,
@@ -110,6 +112,12 @@ pub fn untracked<R>(f: impl FnOnce() -> R) -> R {
     f()
 }
 
+/// Run `f` with the allocator hooks passing straight through (used while the hook state is borrowed).
+fn guarded<R>(f: impl FnOnce() -> R) -> R {
+    let _g = GuardOn::new();
+    f()
+}
+
 #[inline]
 fn tracking_active() -> bool {
     // `try_with` so that allocations during thread teardown pass straight through.
@@ -154,6 +162,9 @@ unsafe impl GlobalAlloc for TrackAlloc {
                 );
                 if let Some(c) = s.capture.as_mut() {
                     c.push(user as usize);
+                }
+                if s.capture_seq {
+                    s.captured_seq.push((user as usize, seq));
                 }
             });
         }
@@ -237,11 +248,13 @@ unsafe impl GlobalAlloc for TrackAlloc {
 
 /// Start observing on this thread. Must be paired with `end_case`.
 pub fn begin_case() {
-    untracked(|| {
+    guarded(|| {
         STATE.with(|s| {
             let mut s = s.borrow_mut();
             s.blocks.clear();
             s.capture = None;
+            s.capture_seq = false;
+            s.captured_seq.clear();
             s.faults.clear();
             s.seq = 0;
             s.n_alloc = 0;
@@ -268,7 +281,7 @@ pub struct CaseEnd {
 /// uniform padding, so later frees from any thread are fine).
 pub fn end_case() -> CaseEnd {
     ENABLED.with(|e| e.set(false));
-    STATE.with(|s| {
+    guarded(|| STATE.with(|s| {
         let mut s = s.borrow_mut();
         let mut leaked = Vec::new();
         let mut extra_faults = Vec::new();
@@ -309,34 +322,60 @@ pub fn end_case() -> CaseEnd {
         let mut faults = std::mem::take(&mut s.faults);
         faults.extend(extra_faults);
         CaseEnd { faults, leaked_watched: leaked, n_alloc: s.n_alloc, n_free: s.n_free }
-    })
+    }))
 }
 
 // ---------------------------------------------------------------------------------------------
 // capture / watch
 
 pub fn capture_on() {
-    untracked(|| STATE.with(|s| s.borrow_mut().capture = Some(Vec::new())));
+    guarded(|| {
+        STATE.with(|s| {
+            let mut s = s.borrow_mut();
+            s.capture = Some(Vec::new());
+            s.capture_seq = true;
+            s.captured_seq.clear();
+        })
+    });
 }
 
 /// Blocks allocated since `capture_on`, in allocation order (those already freed again removed).
 pub fn capture_off() -> Vec<usize> {
-    untracked(|| {
+    guarded(|| {
         STATE.with(|s| {
             let mut s = s.borrow_mut();
             let v = s.capture.take().unwrap_or_default();
+            s.capture_seq = false;
+            s.captured_seq.clear();
             v.into_iter().filter(|a| s.blocks.contains_key(a)).collect()
         })
     })
 }
 
+/// Blocks allocated since `capture_on` as (address, allocation sequence number), whether or not
+/// they were freed again in the meantime.
+pub fn capture_off_seq() -> Vec<(usize, u64)> {
+    guarded(|| {
+        STATE.with(|s| {
+            let mut s = s.borrow_mut();
+            s.capture_seq = false;
+            std::mem::take(&mut s.captured_seq)
+        })
+    })
+}
+
+/// The block allocated at `addr` with sequence number `seq` is still allocated.
+pub fn block_is(addr: usize, seq: u64) -> bool {
+    guarded(|| STATE.with(|s| s.borrow().blocks.get(&addr).map(|b| b.seq == seq && !b.released).unwrap_or(false)))
+}
+
 pub fn block_info(block: usize) -> Option<Block> {
-    untracked(|| STATE.with(|s| s.borrow().blocks.get(&block).copied()))
+    guarded(|| STATE.with(|s| s.borrow().blocks.get(&block).copied()))
 }
 
 /// Mark a captured block as a Gc block; `value_addr` is where the value starts.
 pub fn watch(block: usize, value_addr: usize) {
-    untracked(|| {
+    guarded(|| {
         STATE.with(|s| {
             let mut s = s.borrow_mut();
             if let Some(b) = s.blocks.get_mut(&block) {
@@ -349,20 +388,20 @@ pub fn watch(block: usize, value_addr: usize) {
 
 /// The allocator still owns this (watched) block: allocated and not yet released.
 pub fn block_live(block: usize) -> bool {
-    untracked(|| STATE.with(|s| s.borrow().blocks.get(&block).map(|b| !b.released).unwrap_or(false)))
+    guarded(|| STATE.with(|s| s.borrow().blocks.get(&block).map(|b| !b.released).unwrap_or(false)))
 }
 
 /// Number of watched blocks not yet released.
 pub fn watched_outstanding() -> usize {
-    untracked(|| STATE.with(|s| s.borrow().blocks.values().filter(|b| b.watched && !b.released).count()))
+    guarded(|| STATE.with(|s| s.borrow().blocks.values().filter(|b| b.watched && !b.released).count()))
 }
 
 pub fn take_faults() -> Vec<AllocFault> {
-    untracked(|| STATE.with(|s| std::mem::take(&mut s.borrow_mut().faults)))
+    guarded(|| STATE.with(|s| std::mem::take(&mut s.borrow_mut().faults)))
 }
 
 pub fn alloc_counters() -> (u64, u64) {
-    untracked(|| STATE.with(|s| {
+    guarded(|| STATE.with(|s| {
         let s = s.borrow();
         (s.n_alloc, s.n_free)
     }))
